@@ -32,60 +32,67 @@ ASSUMPTIONS = [
     "a run alone, dictionary balance, ThreadSanitizer; a race that needs a rare interleaving can be missed",
     "the dictionary is modelled as a reference count per string; that dict.c on top of hash_table.c implements this is the "
     "subject of slice ht (C04/C17), not of this property",
+    "only the dictionary, error-record and lazy-canonical parts of the model are tied to the C code by T2; the hash cache, "
+    "logging-option, type-reference-count, scratch and slot parts are regression models of seeded defect classes",
 ]
 
 MANIFEST = {
-    "text": "PARTIAL. Coq (Sched.v: threads = lists of atomic steps over a shared state with the two locks of a context, the "
-            "dictionary, the per-thread error records stored inline in a resizable arena, lazily cached canonical strings, the "
-            "LYB hash cache; schedule = list of thread ids): C16_lock_discipline (every schedule of programs that pass a static "
-            "lock check - all sequences of the modelled API calls do - touches the dictionary table, the error table and the "
-            "hash cache only with the guarding lock held), C16_dict_linearizable (every schedule of lock-bracketed "
-            "lydict_insert/remove, cut anywhere, is equivalent to the serial execution of the calls in the order they "
-            "returned, which respects program order; every call got the serial result), C16_dict_final_refcounts (if threads "
-            "only give back references they hold, every call succeeds and final counts = initial + references still held, "
-            "for every schedule), C16_err_records_isolated (ly_err_first/last only returns items the same thread stored; "
-            "arbitrary programs), C16_err_rec_pointer_stable (arbitrary programs, any number of threads, every schedule: the "
-            "record handle returned by ly_err_get_rec/ly_err_new_rec names a live record whenever it is used after the lock was "
-            "dropped; true since /repo 75f292f, the former 6-thread refutation witness is kept as Example "
-            "C16_former_err_rec_witness), C16_private_ops_schedule_independent, C16_type_refcount_atomic_no_lost_update (reference "
-            "count of a compiled type of the shared schema taken / given back from private data trees with the atomic "
-            "operations: in every schedule the counter is its initial value plus the operations that took effect; "
-            "type_refcount_plain_increment_refuted: a plain ++ loses an increment or overwrites a decrement), "
-            "C16_scratch_local_interference_free (the values a thread reads back from a "
-            "thread-local scratch buffer - struct tm of gmtime_r/localtime_r - are in every schedule the ones it reads alone, "
-            "whatever other threads do with the process-wide buffer; Example C16_static_scratch_shared for gmtime()), "
-            "C16_slot_read_in_section_valid (programs passing the lock check and the slot check read err_ht slots only "
-            "through pointers into the current arena; Example C16_err_slot_read_after_unlock: read after the unlock is an "
-            "unlocked access through a pointer into a freed arena), C16_hash_read_after_own_fill (a thread that went through "
-            "the locked fill of all nodes always reads cached LYB hashes; Example C16_hash_cache_double_checked: an unlocked "
-            "fast path reads a hash that is not stored yet), C16_log_temp_override_isolated (when library code silences the "
-            "logger only through the thread-local override ly_temp_log_options - all compiled API programs do - a thread "
-            "without an override of its own always logs with the options the application set, in every schedule; Example "
-            "C16_log_global_window_visible: the same trial done with the process-wide ly_log_options() is seen by other "
-            "threads and overlapping windows leave the options at 0). Refuted with an explicit schedule "
-            "(vm_compute): canon_cache_single_ref_refuted (two readers of one shared value both pass the unlocked test of "
-            "_canonical, one dictionary reference leaks). Tie: T2 "
-            "runs forced schedules (call-level interleavings, preemption between the _canonical test and the store, "
-            "preemption between ly_err_get_rec and the dereference) through the extracted model and through the C code "
-            "(impl/t_conc.c: sequencing operations + link-time hooks) and compares strings left in the dictionary, lock-set "
-            "violations and every ly_err_last result. Oracle conc-serial: 2..8 threads on one context "
-            "and one shared tree (parse XML/JSON/LYB with drawn parser options (OPAQ, STRICT, ONLY, NO_STATE, ORDERED), "
-            "validation options and printer options, the threads' own ly_temp_log_options, validate, print, XPath, dup, diff, "
-            "apply, dictionary calls, schema find/print, failing parses + error reads, tight loops that duplicate / compare / diff / merge / free private trees full of instance-identifiers with key "
-            "and leaf-list predicates, leafrefs, unions, identityrefs, bits and enumeration keys, tight loops of failing parses that "
-            "check code/message/path after each while other threads stay inside the OPAQ XML parser on documents with "
-            "hundreds of leaf-list instances; shared-tree prints, find_path, find_xpath, eval_xpath, compare) must "
-            "give every thread the results it gets alone in a fresh context, bring the dictionary back to the post-setup "
-            "size, never touch a table without its lock, leave every lysc_type.refcount of the shared schema at its value before the threads ran "
-            "(white box), leave the process-wide state as the case set it (ly_log_options round "
-            "trip, ly_log_level, log callback, the main thread's temporary options, context options and change count), and "
-            "(ThreadSanitizer build) raise no report.",
-    "note": "Known finding (still in the code): canon-lazy-cache, with a deterministic forced-schedule replay on the release "
-            "build; err-rec-resize is fixed (75f292f) and its forced schedule is a regression case (model, T2 and oracle). Cases "
-            "are constructed so that the listed race is either excluded (shared tree warmed or absent) - then nothing may be "
-            "reported - or possible - then only reports with its stacks / consequences are attributed to it. Not covered: "
-            "concurrent context changes (not allowed by the property), plugins other than the built-in ones, "
-            "ly_log_options/ly_log_level changes while threads run, LY_CTX_LEAFREF_LINKING.",
+    "text": "PARTIAL. Coq model Sched.v: threads = lists of atomic, sequentially consistent steps over one shared state (the two "
+            "locks of a context, the dictionary as a reference count per string, the per-thread error records as separately "
+            "allocated cells whose pointers sit in a resizable table arena, lazily cached canonical strings, the LYB hash cache "
+            "filled node by node, the process-wide logging options and the thread-local override, the reference count of a "
+            "shared compiled type, process-wide and thread-local scratch buffers); a schedule is a list of thread ids; the API "
+            "calls are hand-transcribed step programs (compile). Theorems, each for EVERY schedule: C16_lock_discipline "
+            "(programs passing the static lock check disc touch the dictionary table, the error table and the hash cache only "
+            "with the guarding lock held); C16_dict_linearizable (threads running only lock-bracketed lydict_insert/remove, cut "
+            "anywhere: equivalent to the serial execution of the calls in the order they returned, which respects program "
+            "order; every call got the serial result); C16_dict_final_refcounts (same programs, if threads only give back "
+            "references they hold: every call succeeds, final counts = initial + references still held); Example "
+            "C16_dict_unlocked_not_linearizable (without the lock two removes of one reference both succeed); "
+            "C16_err_records_isolated and C16_err_rec_pointer_stable (arbitrary programs, any number of threads: ly_err_first/"
+            "last only returns items the same thread stored, and the record handle is live whenever it is used after the lock "
+            "was dropped; true since /repo 75f292f, former 6-thread witness kept as Example C16_former_err_rec_witness); "
+            "C16_slot_read_in_section_valid (programs passing disc and the slot check schk read err_ht slots only through "
+            "pointers into the current arena; Example C16_err_slot_read_after_unlock); C16_hash_read_after_own_fill (programs "
+            "passing hchk - every read preceded by the thread's own completed locked fill - read cached LYB hashes; Examples "
+            "C16_hash_cache_double_checked, C16_hash_double_checked_rejected); C16_private_ops_schedule_independent and "
+            "C16_scratch_local_interference_free (programs with no Priv / scratch step in a conditionally skipped block: private "
+            "results and the values read back from a thread-local buffer are those of a run alone, whatever others do; Example "
+            "C16_static_scratch_shared for a process-wide buffer); C16_type_refcount_atomic_no_lost_update (programs without "
+            "plain increments: counter = initial + operations that took effect; type_refcount_plain_increment_refuted and "
+            "Example C16_type_refcount_witnesses: a plain ++ loses an increment / overwrites a decrement); "
+            "C16_log_temp_override_isolated (no program writes the process-wide options: a thread without an override of its "
+            "own logs with the initial options; Example C16_log_global_window_visible for the process-wide variant). The "
+            "C16_api_programs_* theorems show that all compiled API programs meet each of these hypotheses. Refuted with an "
+            "explicit schedule (vm_compute): canon_cache_single_ref_refuted (two readers of one shared value both pass the "
+            "unlocked test of _canonical, one dictionary reference leaks; Example C16_canon_serial_single_ref for the serial "
+            "order). Tie T2 (release build only): forced schedules (call-level interleavings, preemption between the "
+            "_canonical test and the store, preemption between ly_err_get_rec and the use of the record) of dictionary calls, "
+            "log_store / ly_err_last / ly_err_clean and the lazily caching print run through the extracted model and through "
+            "the C code (impl/t_conc.c: sequencing operations + link-time hooks); compared: strings left in the dictionary, "
+            "lock-set violations, every ly_err_last result. The hash cache, logging options, type reference count, scratch and "
+            "slot parts of the model have NO T2 tie: they mirror seeded defect classes and are covered on the C side by the "
+            "oracle only. Oracle conc-serial (release and ThreadSanitizer builds): 2..8 threads on one context and one shared "
+            "tree run generated workloads (parse XML/JSON/LYB with drawn parser, validation and printer options, the threads' "
+            "own ly_temp_log_options, validate, print, XPath, dup, diff, apply, merge, dictionary calls, schema find/print, "
+            "failing parses + error reads in tight loops while other threads stay inside the OPAQ XML parser on big documents, "
+            "loops that duplicate / compare / diff / merge / free private trees full of instance-identifiers with predicates, "
+            "leafrefs, unions, identityrefs, bits and enumeration keys; shared-tree print, find_path, find_xpath, eval_xpath, "
+            "compare) and must give every thread the results it gets alone in a fresh context, bring the dictionary back to the "
+            "post-setup size, never call a lyht_* function on the dictionary / error table without its lock (link-time trace), "
+            "leave every lysc_type.refcount of the shared schema (white box) and the process-wide state (ly_log_options round "
+            "trip, ly_log_level, log callback, main thread's temporary options, context options and change count) unchanged, "
+            "and raise no ThreadSanitizer report.",
+    "note": "Modelled, not verified: the step programs are transcribed by hand from dict.c, log.c, lyb.c, path.c and the "
+            "lazily caching type plugins; refcount++ / refcount-- of a dictionary record and every other step are atomic in the "
+            "model. Known finding (still in the code): canon-lazy-cache, with a deterministic forced-schedule replay on the "
+            "release build; err-rec-resize is fixed (75f292f), its forced schedule is a regression case (model Example, T2, "
+            "oracle). Oracle cases are built so that the listed race is either excluded (shared tree warmed or absent: nothing "
+            "may be reported) or possible (only reports with its stacks / consequences are attributed to it; the attribution "
+            "is by stack-function patterns). LYD_VALIDATE_MULTI_ERROR is not drawn while a thread has switched error storing "
+            "off (a single-threaded crash reported for C05). Not covered: concurrent context changes (not allowed by the "
+            "property), plugins other than the built-in ones, ly_log_options/ly_log_level changes while threads run, "
+            "LY_CTX_LEAFREF_LINKING, rare interleavings the search does not hit.",
     "technique": "Coq proof over a hand-written concurrency model (interleaving semantics) + forced-schedule correspondence "
                  "(extracted OCaml vs C with link-time hooks) + serial-equivalence and ThreadSanitizer search",
 }
